@@ -9,5 +9,5 @@ Proof.
   intros Hp. intros HI Hs. pres_start_part s l Hs Hp.
   all: destruct HI; constructor; cbn in *.
   all: try assumption.
-  all: try solve [timeout 20 fin2].
+  all: fin2.
 Qed.
